@@ -48,7 +48,7 @@ class CodecMonitor(Monitor):
         self.expect[(src, dst, int(h.seq))] = {
             "key": conn.session_key_bytes, "type": h.pkt_type.value, "seq": int(h.seq), "ack": int(h.ack),
             "bits": h.ack_bits, "ctime": h.ctime, "count": len(msgs), "length": len(pkt.msg), "msgs": msgs, "conn": cn,
-            "to_client": bool(conn.isServer)}
+            "to_client": bool(conn.isServer), "t": w.k.now}
         self.max_count = max(self.max_count, len(msgs))
         if len(msgs) >= 200:
             w.probe("count_ge_200_in_one_datagram")
@@ -185,6 +185,17 @@ class C09(UdpCheck):
                 vs.append({"kind": "client_update_raised", "key": e["type"], "detail": e})
             elif e["where"].startswith("send") and e["op"].get("len", 0) <= 8 * 1024 * 1024:
                 vs.append({"kind": "send_raised", "key": "%s:%s" % (e["where"], e["type"]), "detail": e})
+        # every packet that left the builder (its messages are dequeued at that point) is handed to the socket: the client
+        # does so in the same update() call; the server within the tick (plus reactor lag), unless a send error was injected
+        plan_ops = set(op["op"] for op in case["plan"])
+        for (src, dst, seq), e in mon.expect.items():
+            if w.k.now - e["t"] < 1.0:
+                continue
+            if e["to_client"] and (w.sockerrs or "shutdown" in plan_ops or "hkick" in plan_ops):
+                continue
+            vs.append({"kind": "built_packet_never_reached_the_socket", "key": "server" if e["to_client"] else "client",
+                       "detail": {"conn": e["conn"], "seq": seq, "t_built": round(e["t"], 4), "msgs": e["count"], "type": e["type"]}})
+            break
         for t, msg, et, es in w.seams.logged_errors:
             if "unable to encode" in msg or "client update" in msg or "reactor:" in msg or et in ("struct.error", "error", "UnboundLocalError"):
                 vs.append({"kind": "server_send_path_raised", "key": "%s" % et, "detail": {"t": t, "msg": msg, "exc": es}})
